@@ -881,6 +881,72 @@ def sroa_namedtuples(tree: ast.Module) -> ast.AST:
                     continue
                 new = ast.copy_location(ast.Name("%s_%s" % (v, at.attr), ast.Load()), at)
                 _swap_child(pm[id(at)], at, new)
+    # phase 2: a record that travels (yielded by a generator, returned, taken from an iterator) and is read field by field
+    # at the other end.  A NamedTuple IS a tuple: `T(a, b, c)` that is yielded / returned is written `(a, b, c)`, and a local
+    # whose every read is a field of exactly one such class is bound by unpacking (`v_f1, v_f2, v_f3 = E`, `for v_f1, ... in G`).
+    for fn in [n for n in ast.walk(tree) if isinstance(n, (ast.FunctionDef, ast.AsyncFunctionDef))]:
+        pm = {}
+        own = list(ast.walk(fn))
+        for x in own:
+            for ch in ast.iter_child_nodes(x):
+                pm[id(ch)] = x
+        params = {a.arg for a in fn.args.posonlyargs + fn.args.args + fn.args.kwonlyargs}
+        names = {x.id for x in own if isinstance(x, ast.Name) and isinstance(x.ctx, ast.Store)} - params
+        for v in sorted(names):
+            loads = [x for x in own if isinstance(x, ast.Name) and x.id == v and isinstance(x.ctx, ast.Load)]
+            stores = [x for x in own if isinstance(x, ast.Name) and x.id == v and isinstance(x.ctx, (ast.Store, ast.Del))]
+            if not loads or not all(isinstance(pm.get(id(l)), ast.Attribute) and pm[id(l)].value is l and isinstance(pm[id(l)].ctx, ast.Load) for l in loads):
+                continue
+            used = {pm[id(l)].attr for l in loads}
+            cands = [c for c, fl in classes.items() if used <= set(fl)]
+            if len(cands) != 1:
+                continue
+            fields = classes[cands[0]]
+            okst = True
+            for st_ in stores:
+                par = pm.get(id(st_))
+                if isinstance(par, ast.Assign) and len(par.targets) == 1 and par.targets[0] is st_:
+                    continue
+                if isinstance(par, (ast.For, ast.comprehension)) and par.target is st_:
+                    continue
+                okst = False
+            if not okst or any("%s_%s" % (v, f_) in names | params for f_ in fields):
+                continue
+            for st_ in stores:
+                par = pm[id(st_)]
+                tup = ast.copy_location(ast.Tuple([ast.Name("%s_%s" % (v, f_), ast.Store()) for f_ in fields], ast.Store()), st_)
+                if isinstance(par, ast.Assign):
+                    par.targets = [tup]
+                else:
+                    par.target = tup
+            for l in loads:
+                at = pm[id(l)]
+                _swap_child(pm[id(at)], at, ast.copy_location(ast.Name("%s_%s" % (v, at.attr), ast.Load()), at))
+    if classes:
+        class _Plain(ast.NodeTransformer):
+            def _plain(self, e):
+                if isinstance(e, ast.Call) and isinstance(e.func, ast.Name) and e.func.id in classes and not any(isinstance(a, ast.Starred) for a in e.args) \
+                        and all(k.arg in classes[e.func.id] for k in e.keywords) and len(e.args) + len(e.keywords) == len(classes[e.func.id]):
+                    fl = classes[e.func.id]
+                    vals = list(e.args) + [None] * (len(fl) - len(e.args))
+                    for k in e.keywords:
+                        vals[fl.index(k.arg)] = k.value
+                    if all(x is not None for x in vals):
+                        return ast.copy_location(ast.Tuple(vals, ast.Load()), e)
+                return e
+
+            def visit_Yield(self, node):
+                self.generic_visit(node)
+                if node.value is not None:
+                    node.value = self._plain(node.value)
+                return node
+
+            def visit_Return(self, node):
+                self.generic_visit(node)
+                if node.value is not None:
+                    node.value = self._plain(node.value)
+                return node
+        _Plain().visit(tree)
     return ast.fix_missing_locations(tree)
 
 
